@@ -24,7 +24,7 @@ LEVEL_TEXT = ("All cold-start runs with 1 <= steps <= 9 (thorough 22), 1 <= peri
 LEVEL_NOTE = "Exhaustive only within the stated bounds (evidence sets exhaustive: true); durations are whole numbers of steps as the property's quantifier (number of steps) states."
 RULE = ("case = (steps, period, layout, particle variables, direction); inside a case every numrec value is run and compared with the unsplit run. "
         "Non-trivial: steps % period != 0 or the records do not fill the last file; distinct by the tuple.")
-MANDATORY = ["reference_time_decades_before_the_run", "lonlat_in_output_and_empty_state_output_time", "steps_not_multiple_of_period", "last_file_partial", "last_file_full", "single_record_run", "sparse", "dense", "reversed", "forward", "split_vs_unsplit_records", "output_times_with_empty_state", "prototype_with_number", "ncargs_data_model_given"]
+MANDATORY = ["start_time_not_a_multiple_of_the_output_period", "integer_particle_variable_in_output", "reference_time_decades_before_the_run", "lonlat_in_output_and_empty_state_output_time", "steps_not_multiple_of_period", "last_file_partial", "last_file_full", "single_record_run", "sparse", "dense", "reversed", "forward", "split_vs_unsplit_records", "output_times_with_empty_state", "prototype_with_number", "ncargs_data_model_given"]
 EXHAUSTIVE = {"quick": True, "thorough": True}
 ASSUMPTIONS = ["cold start only (warm start is C08)"]
 TIMEOUT = {"quick": 900, "thorough": 3400}
@@ -88,13 +88,19 @@ def run_case(case: dict[str, Any], wd: Path) -> dict[str, Any]:
     sit["ncargs_data_model_given"] = int(ncargs is not None)
     reference = [None, None, "1970-01-01T00:00:00", None, "1950-06-01T00:00:00"][(ns + P) % 5]  # also reference times decades before the run
     sit["reference_time_decades_before_the_run"] = int(reference is not None)
-    base = dict(salt=ns * 100 + P, dt=dt, filename=proto, ncargs=ncargs, nsteps=ns, period=P, layout=case["layout"], reversed=rev, reference=reference,
+    # start times off the multiples of the output period (counted from 1970, or from any round time): the schedule is anchored at the start
+    offset = [0, dt, 90, 3 * dt + 30, 0, 5 * dt][(ns + 3 * P + int(rev)) % 6]
+    start = str(tadd(C.T0, offset))
+    sit["start_time_not_a_multiple_of_the_output_period"] = int(offset % (P * dt) != 0)
+    int_pvar = bool(case["pvars"] and (ns + P) % 2 == 0)
+    sit["integer_particle_variable_in_output"] = int(int_pvar)
+    base = dict(start_offset=offset, int_pvar=int_pvar, salt=ns * 100 + P, dt=dt, filename=proto, ncargs=ncargs, nsteps=ns, period=P, layout=case["layout"], reversed=rev, reference=reference,
                 releases=rels, kills=kills_, pvars=case["pvars"],
                 lonlat=bool((ns + 2 * P) % 4 == 1), enc="f8", speed=0.07, continuous=0)
     sit["lonlat_in_output"] = int(base["lonlat"])
     sit["lonlat_in_output_and_empty_state_output_time"] = int(base["lonlat"] and bool(sit.get("output_times_with_empty_state")))
     unsplit = None
-    want_times = [tadd(C.T0, sgn * k * P * dt) for k in range(nrec)]
+    want_times = [tadd(start, sgn * k * P * dt) for k in range(nrec)]
     for numrec in case["numrecs"]:
         p = dict(base, numrec=numrec)
         sub = wd / f"nr{numrec}"
